@@ -263,13 +263,16 @@ def exec_op(seq: Sequence, op: dict, env: dict, maps: list):
 
 
 def make_maps(case, reg):
+    """detuning maps: {id: weight} or [[id, weight], ...] (the latter keeps
+    integer qubit ids through JSON)"""
     maps = []
     for m in case.get("maps", []):
+        items = list(m.items()) if isinstance(m, dict) else [tuple(x) for x in m]
         if isinstance(reg, MappableRegister):
             lay = reg.layout
-            maps.append(lay.define_detuning_map({int(t): w for t, w in m.items()}))
+            maps.append(lay.define_detuning_map({int(t): w for t, w in items}))
         else:
-            maps.append(reg.define_detuning_map({q: w for q, w in m.items()}))
+            maps.append(reg.define_detuning_map({q: w for q, w in items}))
     return maps
 
 
@@ -753,7 +756,7 @@ def seqin_term(seq: Sequence, seq_name: str, defaults: dict | None, qubits: dict
             cstr(seq_name),
             clist(calls),
             vs,
-            clist(cstr(str(q)) for q in reg.qubit_ids),
+            clist(present(q) for q in reg.qubit_ids),
             copt(layj, cjson),
             "true" if seq._in_xy else "false",
             mag,
